@@ -35,6 +35,8 @@ class Cfg:
     allow_quantifier_under_compound_negation: bool = True
     allow_quantifier_in_or: bool = True
     allow_negated_union: bool = True
+    allow_union_in_forall: bool = True
+    allow_shared_below_compound_negation: bool = True
     allow_forall_outer_flatten: bool = True
     allow_predicates_in_or: bool = True
     unique_domains: bool = False
@@ -58,6 +60,8 @@ class _Ctx:
         self.no_pred = 0  # >0: no Predicate / symbolic function atoms (inside for_all while that finding stands)
         self.truthy_only = 0  # >0: literals are drawn truthy (inside for_all while the falsy-literal finding stands)
         self.in_symcall = False
+        self.in_forall = 0  # >0 while generating the condition of a for_all
+        self.below_negation = 0  # >0 while generating the operand of a not_ that may be a compound
         self.in_local_scope = 0  # >0 while generating below a quantifier: those nodes mention local variables
         self.made_atoms = []  # atoms generated so far, candidates for a second occurrence of the same object
         self.made_int_terms = []
@@ -95,7 +99,8 @@ class _Ctx:
         from .lang import term_refs
 
         d = self.draw
-        if self.cfg.allow_shared_nodes and self.made_int_terms and not self.no_pred and not self.truthy_only and d(st.integers(0, 7)) == 0:
+        if (self.cfg.allow_shared_nodes and self.made_int_terms and not self.no_pred and not self.truthy_only
+                and (self.cfg.allow_shared_below_compound_negation or not self.below_negation) and d(st.integers(0, 7)) == 0):
             cands = [t for t in self.made_int_terms if term_refs(t) <= {tuple(r) for r in scope}]
             if cands:
                 t = d(st.sampled_from(cands))
@@ -104,7 +109,8 @@ class _Ctx:
                     self.n_shared += 1
                 return copy.deepcopy(t)
         t = self._int_term(scope, allow_lit)
-        if t["t"] not in ("lit", "var") and not self.in_local_scope:
+        if t["t"] not in ("lit", "var") and not self.in_local_scope and (
+                self.cfg.allow_shared_below_compound_negation or not self.below_negation):
             self.made_int_terms.append(t)
         return t
 
@@ -117,6 +123,8 @@ class _Ctx:
                 return {"t": "symcall", "name": "sf_half", "of": self._int_term(scope, allow_lit=False)}
             finally:
                 self.in_symcall = False
+        self.in_forall = 0  # >0 while generating the condition of a for_all
+        self.below_negation = 0  # >0 while generating the operand of a not_ that may be a compound
         opts = ["a", "a", "b", "scaled"]
         if self.flags["tags_nonempty"]:
             opts.append("tag0")
@@ -169,7 +177,8 @@ class _Ctx:
         from .lang import cond_refs
 
         d = self.draw
-        if self.cfg.allow_shared_nodes and self.made_atoms and not self.no_pred and not self.truthy_only and d(st.integers(0, 6)) == 0:
+        if (self.cfg.allow_shared_nodes and self.made_atoms and not self.no_pred and not self.truthy_only
+                and (self.cfg.allow_shared_below_compound_negation or not self.below_negation) and d(st.integers(0, 6)) == 0):
             cands = [a for a in self.made_atoms if cond_refs(a) <= {tuple(r) for r in scope}]
             if cands:
                 a = d(st.sampled_from(cands))
@@ -178,7 +187,8 @@ class _Ctx:
                     self.n_shared += 1
                 return copy.deepcopy(a)
         a = self._atom(scope)
-        self.made_atoms.append(a)
+        if self.cfg.allow_shared_below_compound_negation or not self.below_negation:
+            self.made_atoms.append(a)
         return a
 
     def _atom(self, scope):
@@ -304,7 +314,7 @@ class _Ctx:
         k = d(st.sampled_from(kinds))
         if k == "atom":
             return self.atom(scope)
-        if k == "or" and neg and not cfg.allow_negated_union:
+        if k == "or" and ((neg and not cfg.allow_negated_union) or (self.in_forall and not cfg.allow_union_in_forall)):
             # while the negated-union finding stands: under not_, both sides of or_ are written over one variable
             # and contain no predicate (or_ with a predicate operand is built as a union)
             r = d(st.sampled_from(scope))
@@ -337,7 +347,11 @@ class _Ctx:
         if k == "not":
             if cfg.fragment == "c02" or not cfg.allow_not_compound:
                 return {"c": "not", "x": self.atom(scope)}
-            return {"c": "not", "x": self.cond(scope, depth - 1, True, noq)}
+            self.below_negation += 1
+            try:
+                return {"c": "not", "x": self.cond(scope, depth - 1, True, noq)}
+            finally:
+                self.below_negation -= 1
         if k == "exists":
             if neg:
                 # not_(exists(..)) is rewritten into for_all(.., not_(..)) by the engine
@@ -361,9 +375,11 @@ class _Ctx:
                 inner_scope = [r for r in inner_scope if r[0] == "var"]
             self.truthy_only += int(cfg.forall_truthy_literals)
             self.no_pred += int(cfg.forall_no_predicates)
+            self.in_forall += 1
             try:
                 inner = self.cond_using(inner_scope, loc, max(1, depth - 1), neg)
             finally:
+                self.in_forall -= 1
                 self.truthy_only -= int(cfg.forall_truthy_literals)
                 self.no_pred -= int(cfg.forall_no_predicates)
             return {"c": "forall", "v": v, "x": inner, "locals": [list(loc)]}
@@ -388,7 +404,9 @@ class _Ctx:
                 inner = self.cond_using([loc, dloc], dloc, depth - 1, neg)
                 return {"c": "exists", "v": {"t": dloc[0], "i": dloc[1]}, "x": inner, "locals": [list(loc), list(dloc)]}
             # the documented semi-join form: exists(x, c(x, flatten(x.kids))) with x a plain outer variable
-            outers = [r for r in scope if r[0] == "var" and not self.vars[r[1]].get("sub") and not self.is_plain(r)]
+            # (a variable that an enclosing quantifier binds is not the subject of a semi-join)
+            outers = [r for r in scope if r[0] == "var" and not self.vars[r[1]].get("sub") and not self.is_plain(r)
+                      and not self.vars[r[1]].get("local")]
             if not outers:
                 return self.atom(scope)
             outer = d(st.sampled_from(outers))
@@ -597,6 +615,10 @@ def apply_exclusions(cfg: Cfg, exclude) -> Cfg:
         cfg.allow_union_or = False
     if "not_over_union" in ex:
         cfg.allow_negated_union = False
+    if "union_inside_forall" in ex:
+        cfg.allow_union_in_forall = False
+    if "shared_below_compound_negation" in ex:
+        cfg.allow_shared_below_compound_negation = False
     if "empty_domain" in ex:
         cfg.allow_empty_domain = False
     if "sel_derived" in ex:
